@@ -63,6 +63,7 @@ VARIABLES
   last        \* the last event
 
 vars == <<closed, acc, bal, out, vals, wf, last>>
+View == <<closed, acc, bal, out, vals, wf>>       \* `last` is observation only
 
 -----------------------------------------------------------------------------
 (* generic sums over index sets                                             *)
